@@ -93,6 +93,8 @@ type verifSim struct {
 	nextMsgID uint64
 	nextCmd   uint64
 
+	// serverIDs marks every proposal of the script as server-allocated
+	serverIDs bool
 	// labels measured during the run
 	flags map[string]bool
 	// enabled restricts which properties' oracles are fatal in this check
@@ -631,6 +633,9 @@ func (s *verifSim) commit(cmd *verifSimCommand) (Receipt, error) {
 	ctx, cancel := context.WithTimeout(context.Background(), 20*time.Second)
 	defer cancel()
 	before := s.view(cmd.node, c)
+	if s.serverIDs {
+		cmd.proposal.ServerAllocatedMessageIDs = true
+	}
 	receipt, err := n.rt.Log().Commit(ctx, cmd.proposal)
 	s.logf("commit ch=%d node=%d expected=%+v cmd=%x n=%d -> %+v err=%v", c, cmd.node, cmd.proposal.Expected, cmd.proposal.CommandID[24:], len(cmd.proposal.Records), receipt, err)
 	if err != nil {
